@@ -32,3 +32,10 @@ func TestC08AllNumbers(t *testing.T) {
 		vtx.RunEvents(t, p, vtx.Config{}, []vtx.Event{prof.E("alloc", "c1", 0), prof.E("chan", "c1", uint16(num), "A")}, r)
 	}
 }
+
+// TestC08BFS: merged breadth-first search to depth 6 (thorough tier only).
+func TestC08BFS(t *testing.T) {
+	r := rep.New("C08")
+	defer r.Write()
+	vtx.ExploreBFS(t, prof.Channels("c08-bfs", map[string]bool{"chan-range": true, "chan-bijection": true, "leak-c2p": true, "leak-p2c": true, "resp": true, "miss-c2p": true, "miss-p2c": true}), r, 6)
+}
